@@ -277,7 +277,7 @@ class Plugin:
             t += rng.choice([0, 1, 1, 3, 10, 100])
             start, hs = rng.choice([alive, resp, byebye, byebye])
             hs = [list(h) for h in hs]
-            k = rng.randrange(9)
+            k = rng.randrange(10)
             names = [h[0] for h in hs]
             if k == 0 and hs:
                 hs.pop(rng.randrange(len(hs)))                                  # drop any header
@@ -295,6 +295,9 @@ class Plugin:
                 hs = [[h[0], rng.choice(["2", "x", ""])] if h[0] == "BOOTID.UPNP.ORG" else h for h in hs] + [["CONFIGID.UPNP.ORG", "7"]]
             elif k == 6:
                 hs = [[h[0].lower() if rng.random() < 0.5 else h[0].title(), h[1]] for h in hs]
+            elif k == 9:
+                # no usable USN, but a literal "_udn" header naming the device: only the USN may name the device
+                hs = [h for h in hs if h[0] != "USN"] + rng.choice([[], [["USN", "nouuid"]], [["USN", ""]]]) + [["_udn", u]]
             # k in (7, 8): unmodified
             ep = "EListenerSrch" if start.startswith("HTTP") else "EListenerAdv"
             if rng.random() < 0.1:
